@@ -450,6 +450,7 @@ func (e *Engine) havocWriteSet(st *State, fr *Frame, w *writeSet) {
 			e.setObjHeap(st, rt, i, h)
 		}
 	}
+	e.havocChans(st, w.chans)
 	if w.maps {
 		e.havocMaps(st)
 	} else {
@@ -479,6 +480,7 @@ func (e *Engine) havocWriteSet(st *State, fr *Frame, w *writeSet) {
 type writeSet struct {
 	cells      map[*ssa.Alloc]bool
 	freeCells  []Val
+	chans      int // channel operations performed (chBit*)
 	freeVars   []*ssa.FreeVar // captured variables written through a callee's assigns clause
 	sliceElems map[string]types.Type
 	objRoots   map[string]types.Type
@@ -573,12 +575,21 @@ func (e *Engine) scanWrites(fr *Frame, instrs []ssa.Instruction, w *writeSet, en
 			w.allocs = true
 		case *ssa.Send:
 			w.ghost = true
+			w.chans |= chBitSend
 		case *ssa.UnOp:
 			if x.Op == token.ARROW {
 				w.ghost = true
+				w.chans |= chBitRecv
 			}
 		case *ssa.Select:
 			w.ghost = true
+			for _, s := range x.States {
+				if s.Dir == types.SendOnly {
+					w.chans |= chBitSend
+				} else {
+					w.chans |= chBitRecv
+				}
+			}
 		case *ssa.Go, *ssa.Defer:
 			w.ghost = true
 			w.anyCall = true
@@ -608,6 +619,7 @@ func (e *Engine) scanWrites(fr *Frame, instrs []ssa.Instruction, w *writeSet, en
 					w.maps = true
 				case "close":
 					w.ghost = true
+					w.chans |= chBitClose
 				}
 			case *ssa.Function:
 				c := e.contractFor(callee)
@@ -686,6 +698,8 @@ func (e *Engine) scanContractWrites(callee *ssa.Function, c *Contract, cc *ssa.C
 			// in/out pointer parameter: handled by the caller through the argument
 		case a == "maps", strings.HasPrefix(a, "map("):
 			w.maps = true
+		case strings.HasPrefix(a, "chan("), a == "chans":
+			w.chans |= chBitRecv | chBitSend | chBitClose
 		case strings.HasPrefix(a, "ghost("):
 			w.ghost = true
 		case strings.HasPrefix(a, "log("):
